@@ -7,6 +7,8 @@ the mutated account; position / bundle effects are dominated by the authority
 helper on a token account constrained to the position; the authority helpers
 contain the owner / delegate / delegated-amount atoms; Pinocchio slot labelling
 equals the Anchor struct; the Pinocchio token view has SPL's layout.
+Also decided: the Pinocchio token-account loader checks the owner against SPL's two program ids on every
+success path;
 Not decided: run-time facts about which keys hold which tokens."""
 import re
 from analysis import cfg, atoms as A, accounts as ACC, program, pino, writes
